@@ -47,7 +47,9 @@ Init ==
   /\ stale = FALSE /\ hist = <<>>
 
 \* parts = number of writes the frame needs (a partial write leaves a remainder)
-Msg(m, sz) == [m |-> m, per |-> per, n |-> nxt[m], len |-> IF sz = "over" THEN MAXSZ + 1 ELSE MAXSZ, parts |-> IF sz = "big" THEN 2 ELSE 1]
+\* "empty" = a zero-length notification: it carries no identity (n = 0)
+Msg(m, sz) == [m |-> m, per |-> per, n |-> IF sz = "empty" THEN 0 ELSE nxt[m],
+               len |-> IF sz = "over" THEN MAXSZ + 1 ELSE IF sz = "empty" THEN 0 ELSE MAXSZ, parts |-> IF sz = "big" THEN 2 ELSE 1]
 
 \* NotificationSink::send_sync_notification (try_send)
 SendSync(sz) ==
@@ -60,8 +62,8 @@ SendSync(sz) ==
           /\ D' = PSend(D, "s", per, msg.n, msg.len, "clogged", 0, TRUE)
           /\ UNCHANGED <<syncCh, nxt>>
      ELSE /\ syncCh' = Append(syncCh, msg)
-          /\ nxt' = [nxt EXCEPT !["s"] = @ + 1]
-          /\ D' = PSend(D, "s", per, msg.n, msg.len, "ok", 0, TRUE)
+          /\ nxt' = [nxt EXCEPT !["s"] = IF msg.n = 0 THEN @ ELSE @ + 1]
+          /\ D' = PSend(D, "s", per, msg.n, msg.len, "ok", 0, msg.n # 0)
   /\ Note([a |-> "ssend", sz |-> sz])
   /\ UNCHANGED <<asyncCh, slot, pq, pf, wire, fin, notifCh, sview, rview, stask, rtask, per, nre, stale>>
 
@@ -74,8 +76,8 @@ SendAsync(sz) ==
         /\ UNCHANGED <<asyncCh, nxt>>
      \/ /\ stask /\ Len(asyncCh) < A
         /\ asyncCh' = Append(asyncCh, msg)
-        /\ nxt' = [nxt EXCEPT !["a"] = @ + 1]
-        /\ D' = PSend(D, "a", per, msg.n, msg.len, "ok", 0, TRUE)
+        /\ nxt' = [nxt EXCEPT !["a"] = IF msg.n = 0 THEN @ ELSE @ + 1]
+        /\ D' = PSend(D, "a", per, msg.n, msg.len, "ok", 0, msg.n # 0)
   /\ nsend' = nsend + 1
   /\ Note([a |-> "asend", sz |-> sz])
   /\ UNCHANGED <<syncCh, slot, pq, pf, wire, fin, notifCh, sview, rview, stask, rtask, per, nre, stale>>
@@ -83,8 +85,9 @@ SendAsync(sz) ==
 \* Connection::poll_next, sending half: select! over async_rx / sync_rx
 ConnTake ==
   /\ stask /\ slot = Nil
-  /\ \/ /\ asyncCh # <<>> /\ slot' = Head(asyncCh) /\ asyncCh' = Tail(asyncCh) /\ UNCHANGED syncCh
-     \/ /\ syncCh # <<>> /\ slot' = Head(syncCh) /\ syncCh' = Tail(syncCh) /\ UNCHANGED asyncCh
+  \* (seeded defect "skip_empty": a dequeued empty notification is not written)
+  /\ \/ /\ asyncCh # <<>> /\ slot' = (IF Mut = "skip_empty" /\ Head(asyncCh).len = 0 THEN Nil ELSE Head(asyncCh)) /\ asyncCh' = Tail(asyncCh) /\ UNCHANGED syncCh
+     \/ /\ syncCh # <<>> /\ slot' = (IF Mut = "skip_empty" /\ Head(syncCh).len = 0 THEN Nil ELSE Head(syncCh)) /\ syncCh' = Tail(syncCh) /\ UNCHANGED asyncCh
   /\ UNCHANGED <<pq, pf, wire, fin, notifCh, sview, rview, stask, rtask, per, nxt, nsend, nre, D, stale, hist>>
 
 \* the sending task ends: channels, the parked notification and the task are gone; the substream is shut down
@@ -143,7 +146,7 @@ UserRecv ==
   /\ LET x == Head(notifCh) IN
      \* repaired: a notification of an earlier stream generation is dropped
      \* (parts = 0 marks a body that is not the bytes of that notification)
-     D' = IF (rview /\ (~Fixed \/ x.per = per)) \/ Mut = "no_filter" THEN PDeliver(D, x.m, x.per, x.n, x.len, x.parts # 0, TRUE) ELSE D
+     D' = IF (rview /\ (~Fixed \/ x.per = per)) \/ Mut = "no_filter" THEN PDeliver(D, x.m, x.per, x.n, x.len, x.parts # 0, x.n # 0) ELSE D
   /\ Note([a |-> "recv"])
   /\ UNCHANGED <<syncCh, asyncCh, slot, pq, pf, wire, fin, sview, rview, stask, rtask, per, nxt, nsend, nre, stale>>
 
